@@ -275,9 +275,22 @@ def run(ctx):
                func=ad.qual, file=ad.module.rel, construct="byte-order loop control", fail="the two-byte-order loop no longer continues on AuthenticationError / returns True on first success / False at the end")
     ud = ctx.fn("msmart.lan.Security.udpid")
     ut = summarize(prog, ud).return_term()
-    u_ok = call_is(ut, "Crypto.Util.strxor.strxor") and len(ut[2]) == 2
+    def xor_operands(t):
+        """(a, b) of a byte-wise XOR of two equal-length buffers: strxor(a, b) / bytes(x ^ y for x, y in zip(a, b))"""
+        if call_is(t, "Crypto.Util.strxor.strxor") and len(t[2]) == 2:
+            return strip(t[2][0]), strip(t[2][1])
+        if (call_is(t, "bytes", "bytearray") and len(t[2]) == 1) or t[0] == "comp":
+            c = strip(t[2][0]) if t[0] == "call" else t
+            if c[0] == "comp" and len(c[3]) == 1 and not c[3][0][2] and call_is(strip(c[3][0][1]), "zip") and len(strip(c[3][0][1])[2]) == 2:
+                e = strip(c[2])
+                if e[0] == "bin" and e[1] == "^" and {e[2][0], e[3][0]} == {"bound"} and e[2] != e[3]:
+                    z = strip(c[3][0][1])[2]
+                    return strip(z[0]), strip(z[1])
+        return None
+    xo = xor_operands(strip(ut))
+    u_ok = xo is not None
     if u_ok:
-        a, b = strip(ut[2][0]), strip(ut[2][1])
+        a, b = xo
         h = lambda x: x[0] == "slice" and meth_is(strip(x[1]), "digest") and call_is(strip(x[1])[1][1], "hashlib.sha256") and strip(strip(x[1])[1][1][2][0]) == ("param", ud.params[-1])  # noqa: E731
         u_ok = h(a) and h(b) and (a[2], a[3]) == (None, ("const", 16)) and (b[2], b[3]) == (("const", 16), None)
     ctx.ob("C19.d", ud.qual, u_ok, "udpid = sha256(id)[:16] xor sha256(id)[16:]", func=ud.qual, file=ud.module.rel, construct="udpid", detail={"term": show(ut)[:200]},
